@@ -103,7 +103,9 @@ func (p *P) TypeID(t reflect.Type) int {
 		fn := [][]int{}
 		ft := []int{}
 		fs := []string{}
+		fe := []int{}
 		for i := 0; i < t.NumField(); i++ {
+			fe = append(fe, b2i(t.Field(i).Anonymous))
 			fn = append(fn, Octets([]byte(t.Field(i).Name)))
 			fs = append(fs, t.Field(i).Name)
 			ft = append(ft, p.TypeID(t.Field(i).Type))
@@ -111,6 +113,7 @@ func (p *P) TypeID(t reflect.Type) int {
 		d["fn"] = fn
 		d["fs"] = fs
 		d["ft"] = ft
+		d["fe"] = fe
 		d["name"] = Octets([]byte(t.Name()))
 	case reflect.Slice, reflect.Array:
 		if t.Elem().Kind() == reflect.Uint8 {
